@@ -124,9 +124,11 @@ def history(rng, fs, nops, lock_heavy=False, valid_only=False):
         elif r < 0.65:
             p = rng.choice(live)
             nn = gen_name(rng, cfg, fs)
+            if ':' in p:
+                nn = p.split(':')[0] + ':' + nn     # CP/M: stay in the same user area
             ops.append(f"R~{p}~{nn}")
             live.remove(p)
-            live.append((p.rsplit('/', 1)[0] + '/' + nn) if '/' in p else ((p.split(':')[0] + ':' + nn) if ':' in p else nn))
+            live.append((p.rsplit('/', 1)[0] + '/' + nn) if '/' in p else nn)
         elif r < (0.85 if lock_heavy else 0.72):
             p = rng.choice(live)
             ops.append(f"{rng.choice('LLU')}~{p}")
@@ -146,7 +148,12 @@ def history(rng, fs, nops, lock_heavy=False, valid_only=False):
                 ops.append(f"P~{p}~0~U~~")
             else:
                 q = rng.choice(live)
-                ops.append(f"R~{p}~{q.rsplit('/', 1)[-1].split(':')[-1]}")
+                tgt = q.rsplit('/', 1)[-1]
+                if cfg.get('users'):
+                    # CP/M: rename onto a name of the same user area (must be refused) or the same name in another area (must be accepted)
+                    u = p.split(':')[0] if ':' in p else '0'
+                    tgt = u + ':' + tgt.split(':')[-1]
+                ops.append(f"R~{p}~{tgt}")
         elif r < 0.94:
             ops.append(rng.choice([f"D~NOSUCH{rng.randrange(100)}", f"R~NOSUCH{rng.randrange(100)}~ZZ", f"L~NOSUCH{rng.randrange(100)}"]))
         elif valid_only:
